@@ -96,3 +96,21 @@ package encapsulation
 //@   ensures {eof-iff-at-boundary} ((err == io.EOF) <==> (firstData(r.data, r.L, old(r.pos)) == r.L))
 //@   ensures {unexpected-eof-inside-chunk} (prefixCut(r.data, r.L, firstData(r.data, r.L, old(r.pos))) || bodyCut(r.data, r.L, firstData(r.data, r.L, old(r.pos)))) ==> err == io.ErrUnexpectedEOF
 //@   ensures {too-long} tooLong(r.data, r.L, firstData(r.data, r.L, old(r.pos))) ==> err == ErrTooLong
+//
+// Round trip: what WriteData / WritePadding are proved to emit is exactly what ReadData's oracle
+// recognises as a data chunk of the same length / as padding of the same size (hdrK/decK are the
+// shared vocabulary, so the two contracts compose without looking at either body).
+//@ lemma roundtrip_data1(d seq, L int, q int, n int): 0 <= q && q <= L && 0 <= n && n < 64 && q + 1 + n <= L && L <= 1<<40 && hdr1(d[q], true) && dec1(d[q]) == n ==> isData(d, L, q) && pk(d, q) == 1 && pv(d, q) == n
+//@   props C09
+//@ lemma roundtrip_data2(d seq, L int, q int, n int): 0 <= q && q <= L && 0 <= n && n < 8192 && q + 2 + n <= L && L <= 1<<40 && hdr2(d[q], d[q+1], true) && dec2(d[q], d[q+1]) == n ==> isData(d, L, q) && pk(d, q) == 2 && pv(d, q) == n
+//@   props C09
+//@ lemma roundtrip_data3(d seq, L int, q int, n int): 0 <= q && q <= L && 0 <= n && n < 1<<20 && q + 3 + n <= L && L <= 1<<40 && hdr3(d[q], d[q+1], d[q+2], true) && dec3(d[q], d[q+1], d[q+2]) == n ==> isData(d, L, q) && pk(d, q) == 3 && pv(d, q) == n
+//@   props C09
+//@ lemma roundtrip_pad1(d seq, L int, q int, n int): 0 <= q && q <= L && 0 <= n && n < 64 && q + 1 + n <= L && L <= 1<<40 && hdr1(d[q], false) && dec1(d[q]) == n ==> isPad(d, L, q) && pk(d, q) + pv(d, q) == 1 + n
+//@   props C09
+//@ lemma roundtrip_pad2(d seq, L int, q int, n int): 0 <= q && q <= L && 0 <= n && n < 8192 && q + 2 + n <= L && L <= 1<<40 && hdr2(d[q], d[q+1], false) && dec2(d[q], d[q+1]) == n ==> isPad(d, L, q) && pk(d, q) + pv(d, q) == 2 + n
+//@   props C09
+//@ lemma roundtrip_pad3(d seq, L int, q int, n int): 0 <= q && q <= L && 0 <= n && n < 1<<20 && q + 3 + n <= L && L <= 1<<40 && hdr3(d[q], d[q+1], d[q+2], false) && dec3(d[q], d[q+1], d[q+2]) == n ==> isPad(d, L, q) && pk(d, q) + pv(d, q) == 3 + n
+//@   props C09
+//@ lemma skip_padding(d seq, L int, q int): isPad(d, L, q) ==> firstData(d, L, q) == firstData(d, L, q + pk(d, q) + pv(d, q))
+//@   props C09
